@@ -526,6 +526,9 @@ def _r2_6(ctx, F):
 _U = 'src/index/updater.rs'
 _I = 'src/index.rs'
 MUTANTS = [
+  {'name': 'seeded-C02-a', 'patch': 'C02-a/patch.diff', 'expect': ('R2.7', 'index_utxo_entries', 'merged(existing, new)')},
+  {'name': 'seeded-C02-b', 'patch': 'C02-b/patch.diff', 'expect': ('R2.5', 'Index::find_range', 'adds exactly end - start')},
+
   {'name': 'pending range starts one sat late (a sat is lost at every split)', 'file': _U, 'old': 'pending_input_sat_range = Some((middle, range.1));', 'new': 'pending_input_sat_range = Some((middle + 1, range.1));', 'expect': ('R2.1', 'index_transaction_sats', 'pending == R')},
   {'name': 'split assigns the whole range and keeps the tail pending (sats duplicated)', 'file': _U, 'old': '          (range.0, middle)\n', 'new': '          (range.0, range.1)\n', 'expect': ('R2.1', 'index_transaction_sats', 'pending == R')},
   {'name': 'remaining decremented by the consumed range, not the assigned one', 'file': _U, 'old': 'remaining -= assigned.1 - assigned.0;', 'new': 'remaining = remaining.saturating_sub(count);', 'expect': ('R2.1', 'index_transaction_sats', '')},
